@@ -219,6 +219,40 @@ def _part_h(args):
     return out
 
 
+def _part_s(args):
+    """CPUStepper.step(snapshot, image) is a pure function: calling it twice with the same arguments gives the same
+    result, and the caller's register snapshot and memory image are left untouched (the next step from them must not
+    see what the previous one wrote)."""
+    codes, st = args
+    from sc62015.pysc62015.stepper import CPUStepper, CPURegistersSnapshot
+    vb = VB()
+    n = 0
+    for d in codes:
+        regs, mem, fill = c06.build_case(d + bytes(4), st, CODE)
+        emu, _fm = pycpu.make(regs, mem, fill)
+        snap = CPURegistersSnapshot.from_registers(emu.regs)
+        image = {a: v for a, v in mem.items()}
+        before_img, before_regs = dict(image), snap.to_dict()
+        stepper = CPUStepper()
+        outs = []
+        try:
+            for _ in range(3):
+                r = stepper.step(snap, image)
+                outs.append((r.registers.to_dict(), tuple((w.address, w.value) for w in r.memory_writes), r.instruction_length))
+        except Exception as exc:  # noqa: BLE001
+            continue
+        n += 1
+        wit = {"part": "S", "bytes": d.hex(), "state": c06_state(st)}
+        if image != before_img or snap.to_dict() != before_regs:
+            ch = sorted(a for a in set(image) | set(before_img) if image.get(a) != before_img.get(a))[:3]
+            vb.add(f"C07/python/stepper-mutates-its-arguments/{c06._mnemonic(d + bytes(4))}", f"{d.hex()}: CPUStepper.step changed the caller's "
+                   f"{'memory image at ' + str([hex(a) for a in ch]) if ch else 'register snapshot'}", wit)
+        if any(o != outs[0] for o in outs[1:]):
+            vb.add(f"C07/python/stepper-not-repeatable/{c06._mnemonic(d + bytes(4))}", f"{d.hex()}: three steps from the same snapshot and image differ: "
+                   f"{str(outs[0])[:100]} vs {str(next(o for o in outs[1:] if o != outs[0]))[:100]}", wit)
+    return {"n": n, "vb": vb}
+
+
 def _loop_code(lp: List[str]) -> bytes:
     return b"".join(bytes.fromhex(x) for x in lp)
 
@@ -355,6 +389,10 @@ def run(ctx) -> None:
     fl = list(flow.scripts(5 if ctx.thorough else 4))
     resF = pmap(_shard_flow, [(c, st_a) for c in chunks(fl, nproc() * 2)])
     ctx.log(f"part F: {sum(r['n'] for r in resF)} control-flow scripts, last instruction same object vs fresh")
+    resS = pmap(_part_s, [(c, st_a) for c in chunks(pal, nproc())])
+    for r in resS:
+        ctx.merge_bucket(r["vb"])
+    ctx.coverage["part_S_stepper_purity_cases"] = sum(r["n"] for r in resS)
     # part H: process-wide history (caches keyed without the address, module-level state)
     pairs_h = [(c, a) for c in H_CODES for a in H_ADDRS]
     orders = [pairs_h, list(reversed(pairs_h)), sorted(pairs_h, key=lambda x: (x[1], x[0])), sorted(pairs_h, key=lambda x: (-x[1], x[0]))]
@@ -443,6 +481,11 @@ def replay(ctx, w) -> Optional[str]:
     if w.get("cpu"):
         from . import c18_cpu
         return c18_cpu.replay(w)
+    if part == "S":
+        r = _part_s(([bytes.fromhex(w["bytes"])], st))
+        for sig, (cnt, wl) in r["vb"].d.items():
+            return wl[0][0]
+        return None
     if part == "H":
         st0 = c06.states_for(False, 0)[0]
         pairs_h = [(c, a) for c in H_CODES for a in H_ADDRS]
